@@ -31,6 +31,7 @@ type PropConf struct {
 	Assumptions []string  `json:"assumptions"`
 	NotDecided  []string  `json:"not_decided,omitempty"`
 	Replay      map[string]string `json:"replay,omitempty"` // function -> replay template name
+	Enums       []string `json:"enums,omitempty"` // dialect package dirs whose generated enum text methods are verified
 	Level       string `json:"level,omitempty"`       // evidence level (default proof)
 	Explanation string `json:"explanation,omitempty"`
 }
@@ -159,6 +160,9 @@ func cmdCheck(args []string) int {
 	ev := &Evidence{PropertyID: id, Tier: tier, Seed: seed, Level: "proof", Coverage: cov}
 	code := ctx.runContracts(cov)
 	code2 := ctx.runExtras(cov)
+	if c3 := ctx.runEnums(cov); c3 > code2 {
+		code2 = c3
+	}
 	if code2 > code {
 		code = code2
 	}
@@ -494,3 +498,5 @@ func modelOf(v *Verdict) string {
 func (c *checkCtx) runExtras(cov map[string]interface{}) int {
 	return runExtras(c, cov)
 }
+
+func numCPU() int { return runtime.NumCPU() }
